@@ -96,31 +96,28 @@ def unparseTime (allowFractional : Bool) (t : Time) : Unparsed :=
 
 /-! ### parse -/
 
+/-- the maximal run of leading digits and the rest (the regexp is deterministic here: every digit
+group is followed by a literal non-digit or the end) -/
+def spanDec (cs : List Char) : List Char × List Char := (cs.takeWhile isDec, cs.dropWhile isDec)
+
 /-- one `\d{1,2}` field followed by something that is not a digit -/
 def field12 (cs : List Char) : Option (Nat × List Char) :=
-  let p := cs.span isDec
+  let p := spanDec cs
   if p.1.length = 0 ∨ 2 < p.1.length then none else some (decNat p.1, p.2)
 
 /-- `\d+` -/
 def digits1 (cs : List Char) : Option (List Char × List Char) :=
-  let p := cs.span isDec
+  let p := spanDec cs
   if p.1.length = 0 then none else some p
 
 def expect (c : Char) : List Char → Option (List Char)
   | x :: xs => if x = c then some xs else none
   | [] => none
 
-/-- `parse_time`: the regular expression `_TIME_RE` (anchored at both ends by `match` and
-`\Z`) followed by the arithmetic.  `none` = `ValueError`. -/
-def parseTime (cs : List Char) : Option Time := do
-  let (hh, r) ← field12 cs
-  let r ← expect ':' r
-  let (mm, r) ← field12 r
-  let r ← expect ':' r
-  let (ss, r) ← field12 r
-  let r ← expect '.' r
+/-- the part of `parse_time` after `HH:MM:SS.`: the `num` group, the optional `S<den>` group and
+the arithmetic; `whole` = `(hour * 60 + minute) * 60`, `ss` = `int(whole_s)` -/
+def parseTail (whole ss : Nat) (r : List Char) : Option Time := do
   let (num, r) ← digits1 r
-  let whole : Nat := (hh * 60 + mm) * 60
   match r with
   | [] =>
     -- decimal: `Fraction("SS.ddd")` is `(SS * 10^k + ddd) / 10^k`
@@ -135,6 +132,17 @@ def parseTime (cs : List Char) : Option Time := do
       if n < d then some (.frac ((whole + ss) * d + n) d) else none
     | _ => none
   | _ => none
+
+/-- `parse_time`: the regular expression `_TIME_RE` (anchored at both ends by `match` and
+`\Z`) followed by the arithmetic.  `none` = `ValueError`. -/
+def parseTime (cs : List Char) : Option Time := do
+  let (hh, r) ← field12 cs
+  let r ← expect ':' r
+  let (mm, r) ← field12 r
+  let r ← expect ':' r
+  let (ss, r) ← field12 r
+  let r ← expect '.' r
+  parseTail ((hh * 60 + mm) * 60) ss r
 
 /-- `parse_time_v1`: fractional times are rejected before BS.2076-2. -/
 def parseTimeV1 (cs : List Char) : Option Time :=
